@@ -35,7 +35,7 @@ import (
 	"golang.org/x/crypto/ssh"
 )
 
-const c49sAttempts = 300 // x 10 ms
+const c49sAttempts = 1000 // x 10 ms
 
 // c49sLog is the node's log sink: it counts the responder's start line and can be slow at it once.
 type c49sLog struct {
@@ -148,6 +148,7 @@ func TestVerifC49RealServices(t *testing.T) {
 	cc, _, key, cpem := cert_test.NewTestCaCert(cert.Version2, cert.Curve_CURVE25519, now.Add(-2*time.Hour), now.Add(48*time.Hour), nil, nil, nil)
 	ca := &c49rCA{c: cc, key: key, pem: cpem}
 	seq := 0
+	lport := 0 // a lighthouse must listen on a fixed underlay port: one per node life, kept across its reloads
 
 	// run builds a node, lets phase drive it up to the stop point (it returns the ports to watch), stops it and judges.
 	type env struct {
@@ -255,8 +256,6 @@ func TestVerifC49RealServices(t *testing.T) {
 		}
 	}
 
-	// a lighthouse must listen on a fixed underlay port; one per node life, kept across its reloads
-	lport := 0
 	dnsCfg := func(on bool, port int) m {
 		return m{"tun": m{"disabled": true}, "listen": m{"host": "127.0.0.1", "port": lport}, "lighthouse": m{"am_lighthouse": true, "serve_dns": on, "dns": m{"host": "127.0.0.1", "port": port}}}
 	}
